@@ -372,6 +372,9 @@ class DbAdapter:
         return self._dumps[key]
 
 
+RANK = {"Merge": 0, "Split": 0, "Load": 1, "Rotate": 1, "Write": 2, "Close": 3}  # rare database steps first
+
+
 def edge_class(e):
     """Input class of an edge: the action and the features of its source state that decide what the call has to do."""
     a, f = e["act"], e["from"]
@@ -411,26 +414,33 @@ def class_order(graph, rng):
     return order
 
 
-def covering_replay(graph, obs_of, ad, budget, rng, priority):
-    """Execute edges of TLC's graph on real objects: for every target edge (in priority order) the BFS path to its source is
-    applied, then the edge; every edge that had not been checked before is checked when it is passed (one projection each).
-    -> (n_checked, n_nontrivial, divergences)"""
-    order = class_order(graph, rng)
+def covering_replay(graph, obs_of, ad, budget, seed, part=(0, 1)):
+    """Execute edges of TLC's graph on real objects: for every target edge (classes in round-robin order, see class_order) the
+    BFS path to its source is applied, then the edge; every edge that had not been checked before is checked when it is passed
+    (one projection each).  part = (k, n): this call handles every n-th target starting with the k-th (worker processes).
+    -> (indices of the checked edges, indices of the non-trivial ones among them, divergences)"""
+    order = class_order(graph, random.Random(seed))
+    k, n = part
+    order = order[k::n]
+    budget = -(-budget // n)
+    rng = random.Random(seed * 1009 + k)
+    index = {id(e): i for i, e in enumerate(graph.edges)}
     checked = set()
     divs = []
-    nontriv = 0
+    nontriv = set()
     for idx in order:
         if len(checked) >= budget or len(divs) >= 400:
             break
         e = graph.edges[idx]
-        if id(e) in checked or e["_fk"] not in graph.path:
+        if idx in checked or e["_fk"] not in graph.path:
             continue
         steps = graph.path[e["_fk"]] + [e]
         root = steps[0]["from"]
         w = ad.build(root)
         try:
             for i, s in enumerate(steps):
-                new = id(s) not in checked
+                si = index[id(s)]
+                new = si not in checked
                 exp = obs_of(s)
                 if exp is None:
                     new = False
@@ -438,13 +448,12 @@ def covering_replay(graph, obs_of, ad, budget, rng, priority):
                     ad.apply(w, s["act"])
                     got = None
                     if new:
-                        # one of the four history queries per checked edge (seeded rotation), everything else always
+                        # one of the five history queries per checked edge (seeded rotation), everything else always
                         heavy = HEAVY[rng.randrange(len(HEAVY))]
                         want = {heavy} | ({"dumpA", "dumpB"} if s["act"]["n"] in ("Close", "Rotate", "Split", "Merge") or i == len(steps) - 1 else set())
-                        want.add("has")
                         got = ad.project(w, want)
                         got["err"], got["res"] = w.err, w.res
-                        exp = {k: v for k, v in exp.items() if k in got}
+                        exp = {f: v for f, v in exp.items() if f in got}
                 except Exception as ex:  # noqa: BLE001 -- an exception escaping a legal operation or query is a divergence
                     import traceback
 
@@ -453,11 +462,11 @@ def covering_replay(graph, obs_of, ad, budget, rng, priority):
                                  "expected": exp, "observed": {"exception": traceback.format_exc()[-2000:]}})
                     break
                 if new:
-                    checked.add(id(s))
+                    checked.add(si)
                     if s["_fk"] != s["_tk"]:
-                        nontriv += 1
+                        nontriv.add(si)
                     # field by field, so that one differing query does not hide the others
-                    ds = [d for d in (rp.diff({k: exp[k]}, {k: got.get(k, "<missing>")}) for k in exp) if d]
+                    ds = [d for d in (rp.diff({f: exp[f]}, {f: got.get(f, "<missing>")}) for f in exp) if d]
                     for d in ds:
                         divs.append({"diverged_at": i + 1, "root": root, "behaviour": [x["act"] for x in steps[: i + 1]],
                                      "action": s["act"], "first_difference": d, "expected": exp, "observed": got})
@@ -465,16 +474,16 @@ def covering_replay(graph, obs_of, ad, budget, rng, priority):
                         break
         finally:
             ad.dispose(w)
-    return len(checked), nontriv, divs
+    return sorted(checked), sorted(nontriv), divs
 
 
-def emitted_graph(eres):
+def emitted_graph(prints):
     """edges + per-state observations printed by an emission run -> (Graph, obs_of(edge))"""
     obs = {}
-    for p in eres.prints:
+    for p in prints:
         if isinstance(p, dict) and "st" in p:
             obs.setdefault(rp.skey(p["st"]), p["obs"])
-    edges = [p for p in eres.prints if isinstance(p, dict) and "act" in p]
+    edges = [p for p in prints if isinstance(p, dict) and "act" in p]
     g = rp.Graph(edges)
 
     def obs_of(e):
@@ -486,22 +495,6 @@ def emitted_graph(eres):
         return o
 
     return g, obs_of
-
-
-DB_STEPS = ("Write", "Load", "Merge", "Split", "Rotate", "Close")
-
-
-RANK = {"Merge": 0, "Split": 0, "Load": 1, "Rotate": 1, "Write": 2, "Close": 3}
-
-
-def edge_priority(e):
-    """Rare database steps first (merge, split, then load / rotate, write, close), among them the ones starting from the files
-    with most snapshots; then reactor changes made while the file already holds snapshots; then the rest."""
-    n = e["act"]["n"]
-    rich = len(e["from"]["A"]["snaps"]) + len(e["from"]["B"]["snaps"])
-    if n in RANK:
-        return (RANK[n], -rich)
-    return (4 if e["from"]["A"]["snaps"] else 5, -rich)
 
 
 FIELD_GROUP = {"hist": "history", "hpos": "history", "hsel": "history", "hloc": "history", "hbv": "history", "sel": "history",
@@ -535,14 +528,14 @@ TRACE_CONST = {"NObj": 4, "NInit": 2, "NLoc": 5, "NVal": 3}
 TRACE_LABELS = ("", "EOL", "error", "x")
 
 
-def trace_driver(ad, ntraces, nev, seed):
+def trace_driver(ad, ntraces, nev, seed, first=0):
     """Seeded random histories on the real reactor + Database; every event logs the call, its outcome and a selection of the
     observation fields as the real objects show them afterwards.  The driver's own bookkeeping (which objects it put where)
     decides what is legal; arguments that name snapshots are taken from the file's own listing."""
-    rng = random.Random(seed * 7919 + 6)
     traces = []
     C = TRACE_CONST
-    for t in range(ntraces):
+    for t in range(first, first + ntraces):
+        rng = random.Random(seed * 7919 + 6 + 1000003 * t)  # one generator per history: any partition gives the same histories
         root = {"live": [k <= C["NInit"] for k in range(1, C["NObj"] + 1)],
                 "loc": [k if k <= C["NInit"] else 0 for k in range(1, C["NObj"] + 1)],
                 "par": [[0, 0] for _ in range(C["NObj"])], "now": [0, 0]}
@@ -837,26 +830,32 @@ def stratified(runs, k, rng, fine=False):
     return out
 
 
-def run_faults(rep, thorough, seed, rig, fut_emit, max_runs):
-    eres = fut_emit.result()
-    rep.add_tlc("runs:RunWithDb_emit" + _sfx(thorough), eres, {"cfg": "RunWithDb_emit" + _sfx(thorough)})
-    _tlc_verdict(rep, eres, "RunWithDb")
+def select_runs(eres, thorough, seed, max_runs):
     runs = [p for p in eres.prints if isinstance(p, dict) and "file" in p]
     if not runs:
         raise tlc.MachineryError("RunWithDb emission printed no run")
-    total = len(runs)
     rng = random.Random(seed * 131 + 7)
     n1, n2 = max_runs
     first = [r for r in runs if r["phase"] == 1]
     second = [r for r in runs if r["phase"] == 2]
-    runs = (stratified(first, n1, rng, fine=thorough) if len(first) > n1 else first) + \
-           (stratified(second, n2, rng, fine=False) if len(second) > n2 else second)
-    ad = RunAdapter(rig)
-    nontrivial = 0
+    sel = (stratified(first, n1, rng, fine=thorough) if len(first) > n1 else first) + \
+          (stratified(second, n2, rng, fine=False) if len(second) > n2 else second)
+    return sel, len(runs)
+
+
+def execute_runs(ad, runs):
+    """-> [(expected, observed)] for the printed runs, each executed for real"""
+    out = []
     for run in runs:
-        got = ad.run(run)
         exp = {"file": run["file"], "raised": None if run["crash"]["e"] == "none" else "InjectedFailure",
                "fired": run["crash"]["e"] != "none"}
+        out.append((exp, ad.run(run)))
+    return out
+
+
+def report_runs(rep, runs, results, total):
+    nontrivial = 0
+    for run, (exp, got) in zip(runs, results):
         if run["crash"]["e"] != "none":
             nontrivial += 1
         d = rp.diff(exp, got)
@@ -872,11 +871,10 @@ def run_faults(rep, thorough, seed, rig, fut_emit, max_runs):
                    "DatabaseInterface / two failing-or-mutating interfaces (phase 2: restarted through loadStyle=fromDB from the file "
                    "a real first run left, completed or aborted); the .h5 in the working directory is opened with "
                    "Database('r') and compared group by group; non-trivial = the run is aborted by an injected failure "
-                   "(%d of the %d printed runs executed)" % (len(runs), total))
+                   "(%d of the %d printed runs executed, every class of failure point before any is repeated)" % (len(runs), total))
     mid = runs[len(runs) // 2]
     rep.sample({"kind": "run", "cfg": {k: mid[k] for k in ("steps", "sc", "sn", "tight", "roles")}, "failure": mid["crash"],
                 "expected_file": mid["file"]})
-    return len(runs)
 
 
 # ============================================================================================================
@@ -907,6 +905,87 @@ def _cached_run(module, cfg, moddir, **kw):
     return _CACHE[key]
 
 
+# -- the real-code work as jobs: executed in this process (self-test, C06_PROCS=1) or by worker processes ----------------
+def do_job(job, ad=None, graphs=None):
+    """One unit of real-code work; everything in and out is JSON."""
+    kind = job["kind"]
+    if kind == "edges":
+        if graphs is not None and job["graph"] in graphs:
+            g, obs_of = graphs[job["graph"]]
+        else:
+            with open(job["prints"]) as f:
+                g, obs_of = emitted_graph(json.load(f))
+        checked, nontriv, divs = covering_replay(g, obs_of, ad or DbAdapter(), job["budget"], job["seed"], tuple(job["part"]))
+        return {"checked": checked, "nontrivial": nontriv, "divs": divs, "nedges": len(g.edges)}
+    if kind == "traces":
+        return {"traces": trace_driver(ad or DbAdapter(), job["count"], job["nev"], job["seed"], first=job["first"])}
+    if kind == "runs":
+        rig = ad.rig_for_runs() if ad is not None else None
+        return {"results": execute_runs(RunAdapter(rig), job["runs"])}
+    raise AssertionError("unknown job " + kind)
+
+
+def run_jobs(jobs, ad, graphs):
+    """-> results in the order of `jobs`.  Worker processes (C06_PROCS, default 4) each load armi and build their own reactor;
+    in-process monkey-patches (self-test) are only visible to the serial path."""
+    import subprocess
+    import sys
+    import time
+
+    nproc = 1 if _SELFTEST else max(1, int(os.environ.get("C06_PROCS", "4")))
+    if nproc == 1 or len(jobs) == 1:
+        ad = ad or DbAdapter()
+        return [json.loads(json.dumps(do_job(j, ad, graphs), default=str)) for j in jobs]
+    wd = common.workdir("c06jobs")
+    env = dict(os.environ)
+    env["PYTHONPATH"] = os.pathsep.join([common.ROOT] + ([os.environ["VERIF_REPO"]] if os.environ.get("VERIF_REPO") else []) +
+                                        [x for x in env.get("PYTHONPATH", "").split(os.pathsep) if x])
+    pending = list(enumerate(jobs))
+    running, results = [], [None] * len(jobs)
+    deadline = time.time() + float(os.environ.get("C06_JOB_TIMEOUT", "3000"))
+    while pending or running:
+        if time.time() > deadline:
+            for _, proc, _, _, log in running:
+                proc.kill()
+                log.close()
+            raise tlc.MachineryError("C06 worker processes exceeded the time limit; jobs still running: %s" % [r[0] for r in running])
+        while pending and len(running) < nproc:
+            i, job = pending.pop(0)
+            jf, of, lf = (os.path.join(wd, "%s%d.json" % (t, i)) for t in ("job", "out", "log"))
+            with open(jf, "w") as f:
+                json.dump(dict(job, out=of), f)
+            log = open(lf, "w")
+            running.append((i, subprocess.Popen([sys.executable, "-m", "props.c06", jf], cwd=common.ROOT, env=env, stdout=log,
+                                                stderr=subprocess.STDOUT), of, lf, log))
+        time.sleep(0.2)
+        for item in list(running):
+            i, proc, of, lf, log = item
+            if proc.poll() is None:
+                continue
+            running.remove(item)
+            log.close()
+            if proc.returncode != 0 or not os.path.exists(of):
+                for _, other, _, _, olog in running:
+                    other.kill()
+                    olog.close()
+                with open(lf) as f:
+                    raise tlc.MachineryError("C06 worker for job %d (%s) failed rc=%s\n%s" % (i, jobs[i]["kind"], proc.returncode,
+                                                                                           f.read()[-3000:]))
+            with open(of) as f:
+                results[i] = json.load(f)
+    return results
+
+
+def _worker_main(argv):
+    with open(argv[0]) as f:
+        job = json.load(f)
+    res = do_job(job)
+    with open(job["out"] + ".tmp", "w") as f:
+        json.dump(res, f, default=str)
+    os.replace(job["out"] + ".tmp", job["out"])
+    return 0
+
+
 def run(rep, tier, seed, parts=("db", "run")):
     thorough = tier == "thorough"
     sfx = _sfx(thorough)
@@ -917,20 +996,66 @@ def run(rep, tier, seed, parts=("db", "run")):
     pool = ThreadPoolExecutor(max_workers=3)
     # emission runs first (the real-code work waits for them), exhaustive runs in the background while the real code runs
     fut = {}
-    fut["db_emit"] = pool.submit(_cached_run, "DbHistory_mc", "DbHistory_emit%s.cfg" % sfx, DBDIR, workers=1, coverage=False, timeout=3000)
-    fut["db_emit2"] = pool.submit(_cached_run, "DbHistory_mc", "DbHistory_emit2%s.cfg" % sfx, DBDIR, workers=1, coverage=False, timeout=3000)
-    fut["run_emit"] = pool.submit(_cached_run, "RunWithDb_mc", "RunWithDb_emit%s.cfg" % sfx, RUNDIR, workers=1, coverage=False, timeout=3000)
+    fut["wide"] = pool.submit(_cached_run, "DbHistory_mc", "DbHistory_emit%s.cfg" % sfx, DBDIR, workers=1, coverage=False, timeout=3000)
+    fut["narrow"] = pool.submit(_cached_run, "DbHistory_mc", "DbHistory_emit2%s.cfg" % sfx, DBDIR, workers=1, coverage=False, timeout=3000)
+    fut["runs"] = pool.submit(_cached_run, "RunWithDb_mc", "RunWithDb_emit%s.cfg" % sfx, RUNDIR, workers=1, coverage=False, timeout=3000)
     if not _SELFTEST:
         fut["db_mc"] = pool.submit(tlc.run, "DbHistory_mc", "DbHistory_mc%s.cfg" % sfx, DBDIR, want_prints=False, timeout=3000,
-                                   workers=8)
+                                   workers=6)
         fut["run_mc"] = pool.submit(tlc.run, "RunWithDb_mc", "RunWithDb_mc%s.cfg" % sfx, RUNDIR, want_prints=False, timeout=3000,
                                     workers=4)
     try:
-        ad = DbAdapter()
+        serial = _SELFTEST or os.environ.get("C06_PROCS", "4") == "1"
+        # ---- plan the real-code work ----
+        budgets = {"wide": 1000 if thorough else 80, "narrow": 700 if thorough else 50}
+        splits = {"wide": 3 if thorough else 1, "narrow": 2 if thorough else 1}
+        ntr, nev, tsplit = (60, 30, 3) if thorough else (8, 16, 1)
+        max_runs, rsplit = ((240, 50), 4) if thorough else ((24, 6), 2)
+        jobs, graphs, meta = [], {}, {}
+        jobdir = common.workdir("c06prints")
         if "db" in parts:
-            _run_db(rep, thorough, seed, ad, (("wide", fut["db_emit"]), ("narrow", fut["db_emit2"])))
+            for name in ("wide", "narrow"):
+                eres = fut[name].result()
+                rep.add_tlc("edges:%s:DbHistory_emit" % name, eres)
+                _tlc_verdict(rep, eres, "DbHistory")
+                graphs[name] = emitted_graph(eres.prints)
+                if not graphs[name][0].edges:
+                    raise tlc.MachineryError("DbHistory emission (%s) printed no edge" % name)
+                pf = os.path.join(jobdir, name + ".json")
+                if not serial:
+                    with open(pf, "w") as f:
+                        json.dump([p for p in eres.prints if isinstance(p, dict)], f)
+                for k in range(splits[name]):
+                    jobs.append({"kind": "edges", "graph": name, "prints": pf, "budget": budgets[name], "seed": seed,
+                                 "part": [k, splits[name]]})
+            per = -(-ntr // tsplit)
+            for k in range(tsplit):
+                jobs.append({"kind": "traces", "first": k * per, "count": min(per, ntr - k * per), "nev": nev, "seed": seed})
         if "run" in parts:
-            run_faults(rep, thorough, seed, ad.rig_for_runs(), fut["run_emit"], (300, 60) if thorough else (24, 6))
+            eres = fut["runs"].result()
+            rep.add_tlc("runs:RunWithDb_emit" + sfx, eres)
+            _tlc_verdict(rep, eres, "RunWithDb")
+            sel, total = select_runs(eres, thorough, seed, max_runs)
+            meta["runs"] = (sel, total)
+            # interleave, so that every worker gets cheap and expensive (restart) runs
+            for k in range(rsplit):
+                jobs.append({"kind": "runs", "runs": sel[k::rsplit], "slice": [k, rsplit]})
+        # longest jobs first
+        order = sorted(range(len(jobs)), key=lambda i: {"runs": 0, "edges": 1, "traces": 2}[jobs[i]["kind"]])
+        results = [None] * len(jobs)
+        for i, r in zip(order, run_jobs([jobs[i] for i in order], None if not serial else DbAdapter(), graphs)):
+            results[i] = r
+        # ---- account ----
+        if "db" in parts:
+            _report_db(rep, seed, graphs, jobs, results)
+        if "run" in parts:
+            sel, total = meta["runs"]
+            got = [None] * len(sel)
+            for job, res in zip(jobs, results):
+                if job["kind"] == "runs":
+                    k, n = job["slice"]
+                    got[k::n] = [tuple(x) for x in res["results"]]
+            report_runs(rep, sel, got, total)
         if not _SELFTEST:
             res = fut["db_mc"].result()
             rep.add_tlc("exhaustive:DbHistory_mc%s.cfg" % sfx, res)
@@ -951,35 +1076,37 @@ def run(rep, tier, seed, parts=("db", "run")):
         "pairs is exactly the set of pairs written; a history reports one value per pair, the last-named snapshot winning",
         "getHistories appends the live value under the reactor's current (cycle, node) when the object has stored entries and none "
         "for that step; the block's own live 'location' is not compared (histories of 'location' are taken on assemblies)",
+        "the reactor's time in years is cycle + node/128 (data chosen by the adapter), so that HistoryTrackerInterface.getTimeSteps "
+        "can be read back as steps; getTimeSteps is compared in the spec -> code direction only",
         "mergeHistory is used as in a restart: into a freshly opened file; 'requested steps' = strictly before the start point",
         "splitDatabase keeps unlabelled snapshots only and re-bases cycles to the smallest kept cycle (documented)",
         "runs: failures are raised at the entry of a hook (a failing hook changes nothing); failures before the database is "
         "opened leave no file; failures after DatabaseInterface.interactEOL find the file finalised (both outside the "
-        "statement's window, modelled as observed)",
+        "statement's window, modelled as observed); failures inside the nested end-of-cycle dispatch of a restart are not modelled",
     )
 
 
-def _run_db(rep, thorough, seed, ad, fut_emits):
+def _report_db(rep, seed, graphs, jobs, results):
     # spec -> code: two emitted graphs -- "wide" (objects that move and appear, two parameters, depth 4/5) and "narrow" (one
     # object, deeper sequences of database steps)
-    budgets = {"wide": 1200 if thorough else 80, "narrow": 800 if thorough else 50}
-    for name, fut_emit in fut_emits:
-        eres = fut_emit.result()
-        rep.add_tlc("edges:%s:DbHistory_emit" % name, eres)
-        _tlc_verdict(rep, eres, "DbHistory")
-        g, obs_of = emitted_graph(eres)
-        if not g.edges:
-            raise tlc.MachineryError("DbHistory emission (%s) printed no edge" % name)
-        n, nt, divs = covering_replay(g, obs_of, ad, budgets[name], random.Random(seed), edge_priority)
-        if n == 0:
+    for name in ("wide", "narrow"):
+        g, obs_of = graphs[name]
+        checked, nontriv, divs = set(), set(), []
+        for job, res in zip(jobs, results):
+            if job["kind"] == "edges" and job["graph"] == name:
+                checked |= set(res["checked"])
+                nontriv |= set(res["nontrivial"])
+                divs += res["divs"]
+        if not checked:
             raise tlc.MachineryError("no DbHistory edge replayed (%s)" % name)
-        rep.add_replay("database-edges-" + name, n, nt,
+        rep.add_replay("database-edges-" + name, len(checked), len(nontriv),
                        "an edge (s,a,t) of TLC's state graph of DbHistory is executed as path(s);a on a real reactor + Database; "
                        "after it the real listing, snapshot names, hasTimeStep, one of the five history queries (seeded rotation: "
                        "getHistories of blocks / of assembly locations / with explicit timeSteps, getHistoriesByLocation, the "
                        "history tracker), the result of a load and, after close / rotate / merge / split, the complete contents of "
                        "the closed files are compared with the values TLC printed for t; non-trivial = the edge changes the "
-                       "abstract state (%s graph: %d of %d edges checked, rare database steps first)" % (name, n, len(g.edges)))
+                       "abstract state (%s graph: %d of %d edges checked, every input class before any is repeated)" % (
+                           name, len(checked), len(g.edges)))
         for d in divs:
             rep.violation(div_key(d), "real Database diverges from DbHistory after %s: %s" % (
                 json.dumps(d["behaviour"]), d["first_difference"]), dict(d, direction="replay", part="db"))
@@ -988,14 +1115,16 @@ def _run_db(rep, thorough, seed, ad, fut_emits):
                     "expected": {k: v for k, v in (obs_of(e) or {}).items() if k in ("steps", "names", "hist", "res", "err")}})
 
     # code -> spec
-    ntr, nev = (80, 30) if thorough else (8, 16)
-    traces = trace_driver(ad, ntr, nev, seed)
+    traces = []
+    for job, res in zip(jobs, results):
+        if job["kind"] == "traces":
+            traces += res["traces"]
     bad, stats = tracecheck.validate("DbHistory_trace", "DbHistory_trace.cfg", DBDIR, traces, timeout=3000)
     rep.add_tlc("trace-validation:DbHistory", stats["tlc"])
     rep.add_traces("database-random-histories", len(traces), sum(len(t["ev"]) for t in traces),
                    "seeded random histories (assign / move / birth / advance with cycle and node up to 99 / write with 4 labels / "
                    "load / rotate + merge / split / close) on a real reactor + Database; every event (call, outcome, listing, "
-                   "names, two of the four history queries, dumps of closed files) must be a step of DbHistory")
+                   "names, hasTimeStep, two of the five history queries, dumps of closed files) must be a step of DbHistory")
     rep.sample({"kind": "trace", "id": traces[0]["id"], "events": [{"a": e["a"], "err": e["err"]} for e in traces[0]["ev"][:8]]})
     for b in bad:
         if "invariant" in b:
@@ -1242,3 +1371,9 @@ def selftest():
     finally:
         _SELFTEST = False
     return rc
+
+
+if __name__ == "__main__":
+    import sys
+
+    sys.exit(_worker_main(sys.argv[1:]))
